@@ -26,6 +26,24 @@ impl FunctionPrototypeTransform {
         member.prop.is_ident() && member.prop.as_ident().unwrap().sym == PROTOTYPE
     }
 
+    /// $class_name(.$name)*.prototype.$method_name: reading it has no side effects worth ordering
+    pub fn is_static_prototype_path(member: &MemberExpr) -> bool {
+        fn is_ident_path(expr: &Expr) -> bool {
+            match expr {
+                Expr::Ident(_) => true,
+                Expr::Member(member) => member.prop.is_ident() && is_ident_path(&member.obj),
+                _ => false,
+            }
+        }
+        member.prop.is_ident()
+            && match &*member.obj {
+                Expr::Member(prototype) => {
+                    Self::member_prop_is_prototype(prototype) && is_ident_path(&prototype.obj)
+                }
+                _ => false,
+            }
+    }
+
     /// inspects call expression searching for $class_name.prototype.$method_name.[call|apply]($this_expr, $arguments) and if there is a match
     /// returns a tuple (
     ///     ExprOrSpread -> $this_expr,
